@@ -257,12 +257,16 @@ def normalise(j):
     impl_items = {it['path'] for i in j.get('impls', []) if i.get('trait') for it in i.get('items', [])}
     # small known helpers whose interface refactorings like to change are always analysed in their callers
     # (`set_waker(&mut shared.waker, ctx.waker())` / `shared.register_waker(..)` / `set_waker(slot, ctx)` read the same)
-    new = [f for f in fns if (f['path'] not in kpaths or f['path'] in FORCE_INLINE) and f['kind'] in ('fn', 'assoc') and f['path'] not in impl_items]
+    new = [f for f in fns if (f['path'] not in kpaths or f['path'] in FORCE_INLINE) and f['kind'] in ('fn', 'assoc') and f['path'] not in impl_items and not f.get('in_trait')]
     missing = [k for k in known if k['path'] not in present and k['kind'] in ('fn', 'assoc')]
     # renames
     renamed = {}
     for f in new:
-        cands = [k for k in missing if _last(k['path']) == _last(f['path']) and k['arg_count'] == f['arg_count']]
+        # (a method provided by a trait is a new function of its own, never "the same helper under a new name"; nor does an
+        # impl item that disappeared turn up again as a free function)
+        if f.get('in_trait'):
+            continue
+        cands = [k for k in missing if _last(k['path']) == _last(f['path']) and k['arg_count'] == f['arg_count'] and not k['path'].startswith('<')]
         same = [g for g in new if _last(g['path']) == _last(f['path']) and g['arg_count'] == f['arg_count']]
         if len(cands) == 1 and len(same) == 1:
             renamed[f['path']] = cands[0]['path']
@@ -292,7 +296,7 @@ def normalise(j):
     new = [f for f in new if 'renamed_from' not in f or f['path'] in FORCE_INLINE]
     newp = {f['path']: f for f in new}
     if not newp:
-        return notes + desugar_combinators(j) + inline_local_closure_calls(j)
+        return notes + desugar_combinators(j) + inline_local_closure_calls(j) + unroll_array_folds(j) + unroll_array_folds(j)
     # recursion among new helpers: never inline a helper that can reach itself
     calls = {p: {b['term'].get('resolved') or b['term'].get('callee') for b in f['blocks'] if b['term']['k'] == 'call'} & set(newp) for p, f in newp.items()}
 
@@ -357,7 +361,7 @@ def normalise(j):
         notes.append('new helper %s inlined at %d call site(s)%s' % (p, count[p], '' if p in drop else ' (still referenced elsewhere: kept as a function too)'))
     if drop:
         j['functions'] = [f for f in fns if f['path'] not in drop]
-    return notes + desugar_combinators(j) + inline_local_closure_calls(j)
+    return notes + desugar_combinators(j) + inline_local_closure_calls(j) + unroll_array_folds(j)
 
 
 # ---------------------------------------------------------------------------
@@ -716,6 +720,115 @@ def _single_def_stmt(f, l):
         if t['k'] == 'call' and t['dest']['l'] == l and not t['dest']['p']:
             defs.append(t)
     return defs[0] if len(defs) == 1 else None
+
+
+def unroll_array_folds(j):
+    """`[(c1, f1), (c2, f2), ..].into_iter().filter(|r| pred(r)).fold(init, |acc, r| step(acc, r))` over an array literal of
+    this function: a loop with a fixed, known number of iterations.  It is written out — per element: if pred(elem)
+    { acc = step(acc, elem) } — with both closures inlined, so a table of (condition, flag) rows reads like the chain of
+    `if`s it replaces."""
+    notes = []
+    fns_by_path = {}
+    for f in j['functions']:
+        fns_by_path.setdefault(f['path'], f)
+    n_done = 0
+    for f in j['functions']:
+        for fb in list(f['blocks']):
+            t = fb['term']
+            if t['k'] != 'call' or (t.get('callee') or '') != 'std::iter::Iterator::fold' or len(t['args']) != 3 or fb.get('cleanup') or t.get('target') is None or t['dest']['p']:
+                continue
+            it, init, clo2 = t['args']
+            g2 = _closure_of(f, clo2, fns_by_path)
+            if g2 is None or g2[1]['arg_count'] != 3 or 'l' not in it or it['p']:
+                continue
+
+            def producer(local):
+                # the block whose call terminator defines `local`, and that it is its only definition
+                bs = [b for b in f['blocks'] if b['term']['k'] == 'call' and not b['term']['dest']['p'] and b['term']['dest']['l'] == local and not b.get('cleanup')]
+                ds = [s_ for b in f['blocks'] for s_ in b['stmts'] if s_['k'] == 'assign' and s_['lhs']['l'] == local and not s_['lhs']['p']]
+                return bs[0] if len(bs) == 1 and not ds else None
+            chain = [fb]
+            src = producer(it['l'])
+            g1 = None
+            if src is not None and (src['term'].get('callee') or '') == 'std::iter::Iterator::filter' and len(src['term']['args']) == 2:
+                g1 = _closure_of(f, src['term']['args'][1], fns_by_path)
+                if g1 is None or g1[1]['arg_count'] != 2:
+                    continue
+                chain.append(src)
+                a0 = src['term']['args'][0]
+                src = producer(a0['l']) if 'l' in a0 and not a0['p'] else None
+            if src is None or (src['term'].get('callee') or '') != 'std::iter::IntoIterator::into_iter' or len(src['term']['args']) != 1:
+                continue
+            chain.append(src)
+            arr = src['term']['args'][0]
+            if 'l' not in arr or arr['p']:
+                continue
+            # the array literal (through one copy)
+            def single_assign(local):
+                ds = [s_ for b in f['blocks'] for s_ in b['stmts'] if s_['k'] == 'assign' and s_['lhs']['l'] == local and not s_['lhs']['p']]
+                cs = [b for b in f['blocks'] if b['term']['k'] == 'call' and b['term']['dest']['l'] == local]
+                return ds[0] if len(ds) == 1 and not cs else None
+            a_local = arr['l']
+            d = single_assign(a_local)
+            if d is not None and d['rv']['k'] == 'use' and 'l' in d['rv']['op'] and not d['rv']['op']['p']:
+                a_local = d['rv']['op']['l']
+                d = single_assign(a_local)
+            if d is None or d['rv']['k'] != 'agg' or d['rv'].get('ak') != 'array' or not (1 <= len(d['rv']['ops']) <= 16):
+                continue
+            n = len(d['rv']['ops'])
+            elem_ty = d['rv'].get('elem') or ''
+            span, dest, target = t.get('span'), t['dest'], t['target']
+            acc_ty = dest.get('ty', '') or f['locals'][dest['l']]['ty']
+            acc = _new_local(f, acc_ty)
+            # neutralise the iterator calls (their statements still run), then the unrolled loop
+            for b in chain:
+                if b is not fb:
+                    b['term'] = {'k': 'goto', 'target': b['term']['target'], 'span': b['term'].get('span')}
+            start = len(f['blocks'])
+            fb['stmts'].append(_assign(_pl(acc, acc_ty), {'k': 'use', 'op': init}, span))
+            fb['term'] = {'k': 'goto', 'target': start, 'span': span}
+            inl = []
+            for i in range(n):
+                base = len(f['blocks'])
+                elem = _new_local(f, elem_ty)
+                head_stmts = [_assign(_pl(elem, elem_ty), {'k': 'use', 'op': _use(a_local, elem_ty, 'copy', [{'k': 'cindex', 'offset': i, 'from_end': False, 'min_length': i + 1}])}, span)]
+                nxt = None  # filled below
+                if g1 is not None:
+                    clo1_local, gg1 = g1
+                    ref_ty = gg1['locals'][2]['ty']
+                    r_local = _new_local(f, ref_ty)
+                    c_local = _new_local(f, 'bool')
+                    env_ty = gg1['locals'][1]['ty']
+                    e_local = _new_local(f, env_ty)
+                    head_stmts.append(_assign(_pl(r_local, ref_ty), {'k': 'ref', 'mut': False, 'place': _pl(elem, elem_ty)}, span))
+                    head_stmts.append(_assign(_pl(e_local, env_ty), {'k': 'ref', 'mut': env_ty.startswith('&mut'), 'place': _pl(clo1_local, f['locals'][clo1_local]['ty'])}, span))
+                    b_head, b_test, b_app, b_next = base, base + 1, base + 2, base + 3
+                    f['blocks'].append({'cleanup': False, 'stmts': head_stmts, 'desugared': 'array-fold',
+                                        'term': {'k': 'call', 'callee': gg1['path'], 'resolved': gg1['path'], 'args': [_use(e_local, env_ty), _use(r_local, ref_ty)],
+                                                 'dest': _pl(c_local, 'bool'), 'target': b_test, 'unwind': None, 'span': span}})
+                    f['blocks'].append({'cleanup': False, 'stmts': [], 'desugared': 'array-fold',
+                                        'term': {'k': 'switch', 'discr': _use(c_local, 'bool', 'copy'), 'discr_ty': 'bool', 'targets': [['0', b_next]], 'otherwise': b_app, 'span': span}})
+                    inl.append((b_head, gg1))
+                else:
+                    b_app, b_next = base, base + 1
+                clo2_local, gg2 = g2
+                env2_ty = gg2['locals'][1]['ty']
+                e2_local = _new_local(f, env2_ty)
+                app_stmts = ([] if g1 is not None else head_stmts) + [_assign(_pl(e2_local, env2_ty), {'k': 'ref', 'mut': env2_ty.startswith('&mut'), 'place': _pl(clo2_local, f['locals'][clo2_local]['ty'])}, span)]
+                f['blocks'].append({'cleanup': False, 'stmts': app_stmts, 'desugared': 'array-fold',
+                                    'term': {'k': 'call', 'callee': gg2['path'], 'resolved': gg2['path'], 'args': [_use(e2_local, env2_ty), _use(acc, acc_ty, 'copy'), _use(elem, elem_ty)],
+                                             'dest': _pl(acc, acc_ty), 'target': b_next, 'unwind': None, 'span': span}})
+                inl.append((b_app, gg2))
+                f['blocks'].append({'cleanup': False, 'stmts': [], 'desugared': 'array-fold', 'term': {'k': 'goto', 'target': len(f['blocks']) + 1, 'span': span}})
+            # end: dest = acc
+            f['blocks'].append({'cleanup': False, 'stmts': [_assign(dest, {'k': 'use', 'op': _use(acc, acc_ty)}, span)], 'desugared': 'array-fold',
+                                'term': {'k': 'goto', 'target': target, 'span': span}})
+            for bi_, g_ in inl:
+                _inline_call(f, bi_, g_)
+            n_done += 1
+    if n_done:
+        notes.append('%d fold(s) over an array literal written out as the fixed sequence of steps they stand for' % n_done)
+    return notes
 
 
 def inline_local_closure_calls(j):
